@@ -178,6 +178,49 @@ REG = {
         "every type triple x level triple x context subset.",
         "mutation_rate 0; in-place mutation of list values obtained from get_gene() is out of scope",
     ),
+    "C06": (
+        "bounded-exhaustive enumeration of ballot multisets x strategy configurations on the real run_vote against an "
+        "exact integer reference, with every edge of the ballot graph checked for monotonicity (engine D)",
+        "Electorates n<=5 (thorough 7) over 15 voter kinds and n<=3 (4) over the full 39-kind alphabet (permit/block x "
+        "weight x confidence grids incl. 0, EXECUTE, abstain, defer, FAILURE, raising agent, unknown verdict, malformed "
+        "confidence) x 72 (86) configurations of the seven strategies, thresholds, min_voters and EmergencyQuorum; stub "
+        "agents are placed in the real colony; oracle: counts equal the ballot, reached <=> PERMIT, no permit vote => not "
+        "PERMIT, unanimous permit with min voters => PERMIT, any block defeats UNANIMOUS, exact criteria where documented, "
+        "and on every edge (block->permit, weight/confidence one grid step up, add a non-voter) PERMIT is never lost / "
+        "non-voters never add support; permutation symmetry validated on all orderings for small n.",
+        "'PERMIT only if criterion' asserted one-directionally; BAYESIAN and emergency get the universal clauses only",
+    ),
+    "C14": (
+        "stateless choice-point search with a fault injected at every callback / controller step incl. external endings "
+        "(engine B) + differential follow-up histories (engine A)",
+        "Request lists over 1..3 resources incl. repeats x holder configurations (free / held, preemptable or not) x "
+        "priorities; every checkpoint / work / validate answer and every external ending (watchdog kill under a virtual "
+        "clock, manual kill, shutdown) at every step is a choice point, <=1 (thorough 2) injected faults; on return no "
+        "resource is owned by the operation, it is not active, unobtained resources are untouched, work ran at most once "
+        "while holding everything, validation only after work, success only if both succeeded; then arbitrary further "
+        "operations (depth 2/3) must behave as on a system where the operation never existed.",
+        "waiting_list residue and the priority boost kept after maintenance are not judged",
+    ),
+    "C15": (
+        "explicit-state BFS over acquire/release/complete/abort/watchdog histories against a reference wait-for graph "
+        "recomputed from the history and current owners (engine A)",
+        "2-3 operations x 2-3 resources with and without preemption, four plans to depth 6/5/4/5 (thorough 8/8/6/6) incl. a "
+        "pre-positioned contention root; check_deadlock() is non-None exactly when the reference graph has a cycle, reported "
+        "members are live and really wait on each other; after watchdog.execute() the victim is the lowest-priority / oldest "
+        "member, owns nothing, is not active, and the cycle is gone.",
+        "a BLOCKED requester is read as still waiting across a release and re-acquisition by someone else; priority boosts "
+        "and watchdog timeouts not in the alphabet",
+    ),
+    "C19": (
+        "stateless choice-point search over every checkpoint / processor / error-handler answer x static pipeline shape (engine B)",
+        "Pipelines of 1..3 (thorough 4, and 5 with <=3 deviations) stages x every static shape (checkpoint / handler present, "
+        "required, amplification 1/2/150) x both halt_on_failure settings; checkpoint answers true/false/raise/None, "
+        "processor value/raise, handler recovery/raise are choice points taken only when the callback is invoked; plus the "
+        "MAPK preset; oracle from the invocation log with identical signal objects: a processor runs only after its "
+        "checkpoint passed that same signal, nothing runs after a blocked / failed required stage when halting, success "
+        "<=> all stages completed in order with the composed output, no output otherwise, clamped amplification product.",
+        "amplification factors below 1 excluded; run_parallel and raising completion hooks outside the statement",
+    ),
 }
 
 PENDING_REASON = "check not built yet in this session (design in DESIGN.md section 4); will be claimed once its check runs clean"
